@@ -6,7 +6,7 @@
      core.rs    *_iter_next: `next.unwrap_or_else(StopIter instance)`
      core.yl    MapIter.next, FilterIter.next (both test `next.derives(StopIter)`), Iter.collect / Iter.reduce
      compiler.rs for_statement: hidden locals [loop variable; iterator], IterNext; SetLocal; JumpIfStopIter
-     vm.rs      iter_next_impl (CopyTop + Invoke next 0), jump_if_stop_iter (class EXACTLY StopIter)
+     vm.rs      iter_next_impl (CopyTop + Invoke next 0), jump_if_stop_iter (class derived from StopIter)
    Numbers are integers (Z): the programs of the tie only use small integers; isize wrap-around of the
    range cursor is out of reach (|end - current| decreases by one each step). *)
 From Coq Require Import String.
@@ -21,11 +21,13 @@ Inductive value : Type :=
 | VNum (z : Z)
 | VStr (s : list byte)
 | VNil
-| VStop          (* an instance whose class is exactly StopIter *)
+| VStop          (* an instance of StopIter itself *)
 | VSub.          (* an instance of a user class deriving StopIter *)
 
-(* vm.rs jump_if_stop_iter: instance.class == stop_iter_class *)
-Definition is_stop (v : value) : bool := match v with VStop => true | _ => false end.
+(* vm.rs jump_if_stop_iter: an instance whose class is StopIter or has StopIter on its superclass chain
+   (since /repo 063cd78; before that only the exact class ended a for loop while the adapters below already
+   used `derives`: finding stopiter_subclass_adapters, fixed) *)
+Definition is_stop (v : value) : bool := match v with VStop | VSub => true | _ => false end.
 (* core.yl `next.derives(StopIter)` *)
 Definition derives_stop (v : value) : bool := match v with VStop | VSub => true | _ => false end.
 
@@ -230,7 +232,7 @@ Section ForProtocol.
       | None => (CFuel, m)
       | Some (v, m1) =>
         let m2 := setv m1 v in                      (* assigned BEFORE the end test *)
-        if is_stop v then (CNormal, m2)             (* only the exact class ends the loop *)
+        if is_stop v then (CNormal, m2)             (* JumpIfStopIter *)
         else
           match body m2 with
           | (CNormal, m3) | (CContinue, m3) => for_rounds k m3
@@ -243,25 +245,20 @@ End ForProtocol.
 
 (* Iter.collect / Iter.reduce of core.yl are for loops over `self`:
    var ret = init; for v in self { ret = func(ret, v); } return ret; *)
-(* the body needs the current value: thread it through the state *)
-Definition fold_state : Type := (value * value * store)%type.   (* accumulator, loop variable, store *)
-Definition fold_loop (fuel ofuel : nat) (g : value -> value -> value) (init : value) (st : store) (id : nat)
-  : ctl * fold_state :=
-  for_rounds (fun m : fold_state => match obj_next ofuel (snd m) id with
-                       | None => None
-                       | Some (v, st') => Some (v, (fst m, st'))
-                       end)
+(* state of such a loop: accumulator, loop variable, store *)
+Definition iter_fold {A : Type} (fuel ofuel : nat) (step : A -> value -> A) (init : A) (st : store) (id : nat)
+  : ctl * (A * value * store) :=
+  for_rounds (fun m : A * value * store =>
+                match obj_next ofuel (snd m) id with
+                | None => None
+                | Some (v, st') => Some (v, (fst m, st'))
+                end)
              (fun m v => (fst (fst m), v, snd m))
-             (fun m => (CNormal, (g (fst (fst m)) (snd (fst m)), snd (fst m), snd m)))
+             (fun m => (CNormal, (step (fst (fst m)) (snd (fst m)), snd (fst m), snd m)))
              fuel (init, VNil, st).
 
-(* collect: the accumulator is the vector being built; kept as a list *)
-Definition collect_state : Type := (list value * value * store)%type.
-Definition collect_loop (fuel ofuel : nat) (st : store) (id : nat) : ctl * collect_state :=
-  for_rounds (fun m : collect_state => match obj_next ofuel (snd m) id with
-                       | None => None
-                       | Some (v, st') => Some (v, (fst m, st'))
-                       end)
-             (fun m v => (fst (fst m), v, snd m))
-             (fun m => (CNormal, ((fst (fst m) ++ [snd (fst m)])%list, snd (fst m), snd m)))
-             fuel ([], VNil, st).
+Definition fold_loop (fuel ofuel : nat) (g : value -> value -> value) (init : value) (st : store) (id : nat) :=
+  iter_fold fuel ofuel g init st id.
+(* collect: the accumulator is the vector being built (ret.push(v)); kept as a list *)
+Definition collect_loop (fuel ofuel : nat) (st : store) (id : nat) :=
+  iter_fold fuel ofuel (fun (acc : list value) v => (acc ++ [v])%list) [] st id.
